@@ -339,25 +339,14 @@ def scan_order_worker(seed):
     names = sorted({p.split("/")[-1] for p in tree if "/" in p})
     pats = ["*" + rng.choice(names) for _ in range(rng.randint(1, 3))] + ["*__pycache__*"]
     problems = []
-    orig = Path.iterdir
     outs = []
-    try:
-        with sc.write_project(tree) as proj:
-            for k in range(4):
-                r2 = random.Random(seed * 31 + k)
-
-                def shuffled(self, _r=r2):
-                    l = list(orig(self))
-                    _r.shuffle(l)
-                    return iter(l)
-
-                Path.iterdir = shuffled
-                ps = pats[:]
-                r2.shuffle(ps)
+    with sc.write_project(tree) as proj:
+        for k in range(4):
+            r2 = random.Random(seed * 31 + k)
+            ps = pats[:]
+            r2.shuffle(ps)
+            with _shuffled_listing(r2):
                 outs.append(sc.real_scan(proj, "proj", "proj", exclusions=tuple(ps), exclude_external_libraries=(k % 2 == 0)))
-                Path.iterdir = orig
-    finally:
-        Path.iterdir = orig
     if outs[0] != outs[2] or outs[1] != outs[3]:
         problems.append({"what": "two scans of the same tree differ (directory enumeration order / exclusion pattern order)", "files": dict(tree),
                          "patterns": pats, "outs": outs})
